@@ -2,20 +2,25 @@
 
 ENGINES = [
     {'name': 'pyvc', 'path': 'vf/pyvc',
-     'serves_properties': ['C01', 'C02', 'C03', 'C11', 'C12', 'C19'],
+     'serves_properties': ['C01', 'C02', 'C03', 'C04', 'C05', 'C07', 'C11', 'C12', 'C13', 'C14',
+                           'C16', 'C17', 'C19', 'C20'],
      'kind_free_text': 'contract-based deductive verification: sidecar contracts (vf/contracts) on '
                        'the real functions; verification conditions generated from the AST of /repo '
                        'on every run (forward symbolic execution, path enumeration, modular calls '
-                       'through callee contracts, arrays as store/view comprehensions), discharged '
-                       'by z3 with cvc5 / z3-new as fallback; counter-models replayed on the real '
-                       'code; built-in mutants must be killed (thorough tier)'},
+                       'through callee contracts, arrays as store/view comprehensions, sequences of '
+                       'arrays, map-append loops, lookup-table indexing, relational two-run '
+                       'contracts by self-composition), discharged by z3 (nlsat after Ackermann '
+                       'reduction for non-linear real arithmetic) with cvc5 / z3-new as fallback; '
+                       'counter-models replayed on the real code; built-in mutants must be killed '
+                       '(thorough tier)'},
     {'name': 'effects', 'path': 'vf/effects',
      'serves_properties': ['C02', 'C06', 'C08', 'C10', 'C12', 'C16', 'C17', 'C18', 'C19', 'C20'],
      'kind_free_text': 'deductive frame verification: modifies = {} for every public entry point, '
                        'ownership of sliced catalogs, loop independence; modular may-alias / '
                        'write-effect analysis of the real source with callee summaries'},
     {'name': 'coherence', 'path': 'vf/coherence',
-     'serves_properties': ['C05', 'C07', 'C09', 'C11', 'C12', 'C13', 'C14', 'C16', 'C19', 'C20'],
+     'serves_properties': ['C01', 'C02', 'C05', 'C07', 'C08', 'C09', 'C11', 'C12', 'C13', 'C14',
+                           'C16', 'C19', 'C20'],
      'kind_free_text': 'class invariants for lazily evaluated objects: mutator coherence, getter '
                        'purity with z3-checked path conditions, configuration immutability, '
                        'per-call reset, descriptor-driven cache invalidation'},
@@ -31,11 +36,16 @@ _B = 'bounded run-time contract checking (stand-in)'
 
 CLAIMED = {
     'C01': dict(engine='pyvc', technique=f'{_T} (AST->VC, z3/cvc5) + {_B}',
-                text='Proved for all inputs (z3, floats as reals): BoundingBox.from_float is the '
-                     'smallest box under the pixel-centre convention, get_overlap_slices selects '
-                     'exactly the common pixels (None iff none), union/intersection/shape/extent/'
-                     'center. The overlap-area values of the compiled kernels are checked bounded '
-                     'on a boundary lattice against analytic / sub-pixel-counting oracles.',
+                text='Proved for all inputs (z3, floats as reals): the half extents of rotated '
+                     'ellipses and rectangles contain the shape and are attained by a point of it '
+                     '(annuli: the outer shape); _bbox is, per position, the smallest pixel box '
+                     'around centre +- extents (from_float under the pixel-centre convention); '
+                     'get_overlap_slices selects exactly the common pixels (None iff none); '
+                     'union/intersection/shape/extent/center; the method -> (use_exact, subpixels) '
+                     'dispatch incl. the 32x32 rectangle rule; aperture parameter assignment '
+                     'resets every cache and no cached value is written in place. The overlap-'
+                     'area values of the compiled kernels are checked bounded on a boundary '
+                     'lattice against analytic / sub-pixel-counting oracles.',
                 note='A-real; the Cython kernels (.so) cannot be rebuilt and are covered only by '
                      'the bounded driver; known findings F23 (1-ulp), F38, F39 (exact ellipse on '
                      'pixel corners)'),
@@ -47,22 +57,32 @@ CLAIMED = {
                      'at a time). The sum semantics itself is checked bounded against a pixel-loop '
                      'oracle.',
                 note='numpy aliasing tables; the weighted-sum postcondition is bounded, not proved'),
-    'C03': dict(engine='pyvc', technique=f'{_T} (translation lemmas over the C01 contracts) + {_B}',
-                text='Proof obligations of the bounding-box / overlap-slice contracts that carry '
-                     'the integer-translation covariance; end-to-end covariance of every listed '
-                     'API under translation and transposition is checked bounded on seeded scenes.',
+    'C03': dict(engine='pyvc', technique=f'{_T} (relational two-run contracts by self-composition) '
+                                         f'+ {_B}',
+                text='Proved by executing the real function twice on related inputs: from_float '
+                     'and get_overlap_slices shift by exactly the integer offset when box and '
+                     'frame are embedded in a larger canvas, and swap axes under transposition. '
+                     'End-to-end covariance of every listed API under translation and '
+                     'transposition is checked bounded on seeded scenes.',
                 note='relational two-run property: only the index arithmetic is proved'),
-    'C04': dict(engine='rtc', technique=f'{_B}: exhaustive small-scope enumeration vs union-find '
-                                        'oracle',
-                text='No proof obligation: correctness rests on scipy.ndimage.label / find_objects. '
-                     'Exhaustive enumeration of small images (values, ties, NaN, masks, npixels, '
-                     'connectivity) against a union-find oracle and a fresh SegmentationImage.',
-                note='bounded only; scipy label/find_objects are exercised, not assumed'),
+    'C04': dict(engine='pyvc', technique=f'{_T} (candidate pixels, threshold formula, connectivity '
+                                         f'structure) + {_B}: exhaustive small-scope enumeration '
+                                         'vs union-find oracle',
+                text='Proved for all images: the pixels handed to the labeller are exactly the '
+                     'finite, unmasked pixels strictly above the (scalar or per-pixel) threshold; '
+                     'detect_threshold = background + nsigma*error pixel-wise; the 4-/8-connected '
+                     'structure element. The labelling itself (scipy.ndimage) is checked by '
+                     'exhaustive enumeration of small images against a union-find oracle.',
+                note='scipy label/find_objects are exercised bounded, not assumed; non-finite = NaN '
+                     '(+-inf outside the real-number model)'),
     'C05': dict(engine='coherence', technique=f'{_T} (cache-coherence class invariant) + {_B}',
                 text='Proved: every public SegmentationImage mutator resets (or re-seeds) all cached '
                      'lazy attributes that read the fields it writes, with no stale read in between; '
-                     'set-theoretic effects and all attributes vs a fresh object are checked bounded '
-                     'over all histories of length <= 2 (sampled length 3).',
+                     'the lookup tables of reassign_labels / relabel_consecutive have the '
+                     'documented effect on every label array (listed labels -> new label, k-th '
+                     'label -> start+k, everything else unchanged). Other operations and all '
+                     'attributes vs a fresh object are checked bounded over all histories of '
+                     'length <= 2 (sampled length 3).',
                 note='re-seeded caches assumed equal to their getters (bounded check); known '
                      'finding F2 (polygons per connected region)'),
     'C06': dict(engine='effects', technique=f'{_T} (frame of deblend_sources) + {_B} incl. '
@@ -71,10 +91,14 @@ CLAIMED = {
                      'schedule independence (all permutations of completion order for <= 5 tasks, '
                      'real spawn pools) are checked bounded.',
                 note='watershed / ndimage contracts not assumed; scheduling checked bounded'),
-    'C07': dict(engine='coherence', technique=f'{_T} (getter purity of SourceCatalog) + {_B}',
-                text='Proved: no SourceCatalog getter writes a field another access reads (each '
-                     'property is a function of the constructor state). The defining formulas are '
-                     'checked bounded with an exact-rational pixel-loop oracle incl. row locality.',
+    'C07': dict(engine='coherence+pyvc', technique=f'{_T} (per-source pixel selection, getter '
+                                                   f'purity, segmentation-image coherence) + {_B}',
+                text='Proved for every source and pixel: the total mask excludes exactly the '
+                     'pixels off the segment, masked or non-finite; the moment cutouts are zero '
+                     'exactly there and on negative values; no SourceCatalog getter writes a field '
+                     'another access reads; the segmentation image labels/slices stay coherent '
+                     'under renumbering. The defining formulas are checked bounded with an '
+                     'exact-rational pixel-loop oracle incl. row locality.',
                 note='formulas bounded only; known finding F41 (thin-source covariance NaN)'),
     'C08': dict(engine='effects', technique=f'{_T} (ownership of shared references) + {_B}',
                 text='Proved: every attribute __getitem__ copies to the child by reference is never '
@@ -111,17 +135,26 @@ CLAIMED = {
                      'no argument. Recovery of rendered scenes, grouping ids vs brute-force single '
                      'linkage, flags and ordering are checked bounded.',
                 note='least-squares convergence cannot be proved; bounded only'),
-    'C13': dict(engine='coherence', technique=f'{_T} (GriddedPSFModel configuration / purity) + '
-                                              f'{_B}',
-                text='Proved: GriddedPSFModel getters and calls do not rebind configuration. '
-                     'Normalisation sums, model consistency, ImagePSF knots and gridded '
-                     'interpolation are checked bounded on parameter lattices.',
+    'C13': dict(engine='pyvc+coherence', technique=f'{_T} (closed forms, relational contracts, '
+                                                   f'ImagePSF / bilinear weights) + {_B}',
+                text='Proved (exp/erf/sin/cos uninterpreted with stated lemmas): the Gaussian PSF / '
+                     'PRF evaluate methods equal their closed forms; the elliptical Gaussian with '
+                     'equal widths is the circular one at any rotation; sigma and FWHM forms '
+                     'agree; linear in flux, non-negative, point-symmetric about (x_0, y_0); '
+                     'ImagePSF returns fill_value outside and maps sample points to integer knots; '
+                     'the four bilinear weights of GriddedPSFModel; configuration immutability. '
+                     'Normalisation sums and gridded interpolation are checked bounded.',
                 note='integrals / sums are bounded only; known finding F24 (rotated GaussianPRF)'),
-    'C14': dict(engine='coherence', technique=f'{_T} (finder configuration immutability) + {_B}',
-                text='Proved: star-finder calls never rebind their configuration. find_peaks and the '
-                     'three finders are checked bounded against definition oracles (exhaustive '
-                     'small images, lattices, bounds placed one ulp beside reported values).',
-                note='selection logic bounded only (assumes nothing about maximum_filter)'),
+    'C14': dict(engine='pyvc+coherence', technique=f'{_T} (find_peaks candidate mask, brightest '
+                                                   f'selection, configuration) + {_B}',
+                text='Proved: find_peaks candidates are the unmasked, non-border, non-NaN pixels '
+                     'above threshold that equal their neighbourhood maximum; `brightest` keeps '
+                     'min(N, n) distinct rows sorted by decreasing flux with no dropped row '
+                     'brighter than a kept one (all three finders); finder calls never rebind '
+                     'configuration. The finders end-to-end are checked bounded against definition '
+                     'oracles.',
+                note='maximum_filter output is a symbolic input of the block contract; argsort '
+                     'specified as a sorting permutation'),
     'C15': dict(engine='rtc', technique=f'{_B}: representation matrix',
                 text='No contract within reach expresses dtype / layout independence of compiled '
                      'numpy / scipy kernels: 32 representations x 46 entry-point configurations '
@@ -132,11 +165,13 @@ CLAIMED = {
                      'loop-carried state. Every statistic is checked bounded against pixel-loop '
                      'oracles incl. tiny, off-image and fully masked apertures.',
                 note='statistics bounded only'),
-    'C17': dict(engine='effects', technique=f'{_T} (loop independence, frames) + {_B}',
+    'C17': dict(engine='effects+pyvc', technique=f'{_T} (loop independence, frames, centroid_com '
+                                                 f'weights) + {_B}',
                 text='Proved: the per-source loop of centroid_sources has no loop-carried dependence '
-                     '(each call is built from the original keywords) and no centroid function '
-                     'modifies its arguments. Exactness on symmetric / quadratic sources is checked '
-                     'bounded.',
+                     '(each call is built from the original keywords), no centroid function '
+                     'modifies its arguments, and centroid_com weighs masked and non-finite pixels '
+                     'by exactly zero and every other pixel by its value. Exactness on symmetric / '
+                     'quadratic sources is checked bounded.',
                 note='Gaussian fits bounded only'),
     'C18': dict(engine='effects', technique=f'{_T} (frames, loop independence) + {_B}',
                 text='Proved: make_model_image / make_residual_image modify neither the model nor '
@@ -150,11 +185,13 @@ CLAIMED = {
                      'coherent structurally; the mask argument is not modified. Aperture '
                      'consistency and all <= 5-event normalisation histories are checked bounded.',
                 note='PCHIP interpolates its knots (assumed); scaled-cache values bounded'),
-    'C20': dict(engine='coherence', technique=f'{_T} (configuration immutability, frames) + {_B}',
-                text='Proved: Ellipse never rebinds its configuration and fit_image does not write '
-                     'the image; the geometry frame obligations are refuted (known finding F22). '
-                     'Recovery of rendered ellipses and to_polar scalar == array are checked '
-                     'bounded.',
+    'C20': dict(engine='pyvc+coherence', technique=f'{_T} (to_polar scalar and array forms, '
+                                                   f'configuration immutability, frames) + {_B}',
+                text='Proved: the scalar and the vectorised ellipse coordinate transforms equal '
+                     'one closed form (pointwise for arrays); Ellipse never rebinds its '
+                     'configuration and fit_image does not write the image; the geometry frame '
+                     'obligations are refuted (known finding F22). Recovery of rendered ellipses '
+                     'incl. fix_* flags with non-iterative outer isophotes is checked bounded.',
                 note='iterative fitting has no inductive invariant within reach; known findings '
                      'F22, F26, F27'),
 }
